@@ -24,7 +24,8 @@ RULE = ("fault = the peer-to-survivor byte stream is cut after k bytes. Generate
         "for streams up to 2 KB quick / 8 KB thorough, all offsets within +-10 of a frame boundary plus a sample beyond) a real Gateway "
         "(pipe or TCP, 3 close variants) receives S[:k] in a generated chunking; per channel 1-3 blocked receivers, 0-2 waitclose callers or "
         "a callback with endmarker, attached before or after the bytes. Plus worker-side survivors (own process, scripted initiator) and real "
-        "SIGKILLs of popen/socket/via workers. distinct = distinct (stream, k, variant) cases")
+        "SIGKILLs of popen/socket/via workers, and real via gateways whose initiator<->forwarder connection ends after k complete frames "
+        "(every k while the proxied worker sends; queue and callback channels). distinct = distinct (stream, k, variant) cases")
 ASSUMPTIONS = [
     "a waiter that has not returned 8 s after the cut counts as blocked forever",
     "waitclose may either return or raise the documented EOFError for a channel the peer had closed properly before the cut",
@@ -799,6 +800,105 @@ def killed_but_pipe_held(res, spec):
             pass
 
 
+VIA_CUT_BODY = """
+for i in range(%d):
+    channel.send(("item", i, b"x" * %d))
+channel.receive()
+"""
+
+
+def via_connection_cut_between_frames(res, cut, use_callback, nitems, pad):
+    """the connection initiator <-> forwarding process ends after `cut` complete frames of that (outer) connection while a
+    proxied worker is sending: whatever the inner stream looks like at that point, the initiator sees complete items only,
+    in order, then EOFError (callbacks: the endmarker, once), waitclose raises EOFError, the proxied gateway stops receiving"""
+    import execnet
+    from execnet import gateway_base
+
+    label = f"via connection cut after {cut} outer frames ({'callback' if use_callback else 'queue'} channel, {nitems} items of {pad}+ bytes)"
+    mk = "callback" if use_callback else "queue"
+    state = {"armed": False, "count": 0, "io": None}
+    orig = gateway_base.Message.__dict__["from_io"]
+    orig_fn = gateway_base.Message.from_io
+
+    def from_io(io):
+        msg = orig_fn(io)
+        if state["armed"] and io is state["io"]:
+            if state["count"] >= cut:
+                raise EOFError("couldn't load message header (connection cut by the monitor)")
+            state["count"] += 1
+        return msg
+
+    group = execnet.Group()
+    gateway_base.Message.from_io = staticmethod(from_io)
+    try:
+        m = group.makegateway("popen//id=m")
+        sub = group.makegateway("popen//via=m//id=sub")
+        state["io"] = m._io
+        state["armed"] = True
+        ch = sub.remote_exec(VIA_CUT_BODY % (nitems, pad))
+        got = []
+        END = ("__end__",)
+        ends = []
+        if use_callback:
+            done = threading.Event()
+
+            def cb(item):
+                if item is END:
+                    ends.append(1)
+                    done.set()
+                else:
+                    got.append(item)
+
+            ch.setcallback(cb, endmarker=END)
+            if not done.wait(20):
+                res.violation(f"via-cut-endmarker-never-delivered:{mk}", label)
+            time.sleep(0.05)
+            if len(ends) > 1:
+                res.violation(f"via-cut-endmarker-delivered-twice:{mk}", label)
+        else:
+            while True:
+                try:
+                    got.append(ch.receive(20))
+                except EOFError:
+                    break
+                except BaseException as e:  # noqa
+                    res.violation(f"via-cut-receive-{type(e).__name__}:{mk}", f"{label}: {str(e)[-200:]}")
+                    break
+        if state["count"] < cut:
+            # the connection never carried that many frames: nothing was cut, no verdict from this run
+            res.count("via_outer_frame_cuts_not_reached")
+            return
+        res.count("via_outer_frame_cuts")
+        res.count("via_cut_items_delivered", len(got))
+        res.case(core.h64("via-cut", cut, use_callback, nitems, pad))
+        expected = [("item", i, b"x" * pad) for i in range(nitems)]
+        if got != expected[: len(got)]:
+            res.violation(f"via-cut-delivered-partial-or-foreign-item:{mk}", f"{label}: {short(got[-2:], 120)}")
+        for attempt in (1, 2):
+            try:
+                ch.waitclose(20)
+                res.violation(f"via-cut-waitclose-silent:{mk}", label)
+            except EOFError:
+                pass
+            except BaseException as e:  # noqa
+                res.violation(f"via-cut-waitclose-{type(e).__name__}:{mk}", f"{label}: attempt {attempt}: {str(e)[-200:]}")
+        sub.join(20)
+        if sub.hasreceiver():
+            res.violation(f"via-cut-gateway-still-receiving:{mk}", label)
+        # (sends are not judged here: only the receiving half of the connection is ended by the monitor, the descriptors stay
+        # open, so whether a later send is refused depends on how far the teardown has got - the real cuts above cover that)
+    except BaseException as e:  # noqa
+        res.violation(f"via-cut-run-raised:{type(e).__name__}", f"{label}: {str(e)[-300:]}")
+    finally:
+        state["armed"] = False
+        gateway_base.Message.from_io = orig
+        try:
+            group.terminate(2.0)
+        except BaseException:  # noqa
+            pass
+
+
+
 def run_kill(spec):
     import execnet
 
@@ -807,6 +907,12 @@ def run_kill(spec):
     if spec["spec"] == "via":
         for _ in range(2 if spec["tier"] == "quick" else 20):
             killed_but_pipe_held(res, spec)
+        quick = spec["tier"] == "quick"
+        for nitems, pad in ((5, 20),) if quick else ((5, 20), (3, 0), (4, 70000)):
+            # (the worker's items alone make `nitems` frames on that connection, so every one of these cuts is reached)
+            for cut in range(0, nitems):
+                for use_callback in (False, True):
+                    via_connection_cut_between_frames(res, cut, use_callback, nitems, pad)
     for run in range(spec["runs"]):
         group = execnet.Group()
         try:
